@@ -133,7 +133,7 @@ func Run(env *core.Env, p *load.Program, prop string, sel json.RawMessage) (*cor
 		"alphabet": Alpha.Describe(), "enumeration": einfo, "relations": s.Relations, "tier": env.Tier, "seed": env.Seed,
 		"masks": plan.masks, "cost_pool": plan.costs,
 		"sources": st.Sources, "driver_jobs": st.Jobs, "programs_compiled": st.Programs,
-		"unrollings": cx.nUnroll, "unrollings_shared": cx.nCached, "paths": cx.nPaths, "max_paths_per_unrolling": cx.MaxPaths,
+		"unrollings": cx.nUnroll, "unrollings_shared": cx.nCached, "paths": cx.nPaths, "max_paths_per_unrolling": cx.MaxPaths, "over_budget_not_covered": cx.nOver,
 		"obligations": st.Obls, "by_status": nstat, "smt_queries": st.Queries, "smt_queries_distinct": st.DistinctQueries,
 		"driver_s": st.DriverS, "symex_s": st.SymexS, "solve_s": st.SolveS, "replay_s": st.ReplayS,
 		"driver_cmd": drvCmd,
